@@ -37,6 +37,21 @@ def check_tree(m, tree, fails):
         fails.append(f)
 
 
+def limit_tree(r):
+    """a chain of containers down to the nesting limit (max_nested_level = 6), followed by ordinary nested lists and quotes:
+    what the parser does at the limit must not affect the blocks after it"""
+    kinds = [r.choice("qbo") for _ in range(r.choice([5, 6, 6]))]
+    if kinds[-1] == "q" and r.random() < 0.7:
+        kinds[-1] = r.choice("bo")
+    inner = [("para", [("text", "deep word")])]
+    for k in reversed(kinds):
+        inner = [("quote", inner)] if k == "q" else [("list", k == "o", 1, False, [inner], "." if k == "o" else "-")]
+    tail = [("para", [("text", "sep")]),
+            ("list", False, 1, False, [[("para", [("text", "second")]), ("list", True, 7, True, [[("para", [("text", "child a")])], [("para", [("text", "child b")])]], ".")],
+                                       [("para", [("text", "x")]), ("quote", [("para", [("text", "q")])])]], "*")]
+    return inner + tail + [("hr",)] + canon.gen_blocks(r, 0, n=r.randint(1, 2))
+
+
 def _old_correspondence(ctx):
     return {"evaluations": 0, "disagreements": [], "note": "no executable parser model yet"}
 
@@ -48,7 +63,7 @@ def oracle(ctx, extra):
     n = 0
     seen = set()
     for i in range(ctx.n(3000, 60000)):
-        tree = canon.gen_blocks(r, 0, plain=(i % 5 == 0))
+        tree = limit_tree(r) if i % 40 == 7 else canon.gen_blocks(r, 0, plain=(i % 5 == 0))
         check_tree(m, tree, fails)
         n += 1
         seen.add(json.dumps(tree))
@@ -60,7 +75,7 @@ def oracle(ctx, extra):
             "rule": "random document trees: headings 1-6, paragraphs, fenced (3 fence kinds, info) and indented code, thematic "
                     "breaks, HTML blocks, block quotes, bullet/ordered (start 1,2,7,10) tight/loose lists nested up to depth 3; "
                     "inline: words, emphasis, strong, code spans, links with titles, images, autolinks, inline HTML, backslash "
-                    "escapes, soft and hard breaks, nested up to depth 3 (every 5th tree with plain-word text only); printed by "
+                    "escapes, soft and hard breaks, nested up to depth 3 (every 5th tree with plain-word text only; every 40th a chain of 5-6 containers down to the nesting limit followed by ordinary nested lists and quotes); printed by "
                     "the reference printer, parsed with renderer=None, compared after normalisation; distinct by tree",
             "samples": [json.dumps(canon.print_doc(canon.gen_blocks(ctx.rng('s'))))[:300]]}
 
